@@ -24,7 +24,7 @@ static void routed_message (struct ts_conn *sender)
   int d = nondet_int (); M.dest = d == 0 ? TS_DST_NONE : d == 1 ? TS_DST_BUS : d == 2 ? TS_DST_NAME : TS_DST_UNIQUE; M.dest_of = &ts_conns[1];
   M.unknown_stripped = 1; M.container_cleared = 1; M.local_disconnected = 0;
   M.auto_start = nondet_bool (); M.no_reply = nondet_bool (); M.has_fds = nondet_bool (); M.is_hello = nondet_bool ();
-  M.error_name = TS_ERR_NONE; M.in_reply_to = NULL; M.has_string_arg = 0; M.string_arg = NULL; M.refs = 1;
+  M.error_name = TS_ERR_NONE; M.in_reply_to = NULL; M.has_string_arg = 0; M.string_arg = NULL; M.n_string_args = 0; M.refs = 1;
   G.dispatched = &M; G.captures = 1; G.capture_ok = 1; G.captured_msg = &M;     /* bus_dispatch / the driver captured it before routing */
 }
 
@@ -39,7 +39,7 @@ void harness_send_one (void)
   routed_message (sender);
   ts_transaction = &transaction_obj;
   DBusError err; err.name = NULL; err.message = NULL;
-  __CPROVER_assume (PRE_send_one_message (proposed, &ts_context_obj, sender, addressed, &M, ts_transaction, &err));
+  __CPROVER_assume (PRE_send_one_message (proposed, &ts_context_obj, sender, addressed, &M, ts_transaction, &err) && PRE_routed_has_serial (&M));
   __CPROVER_assume (sender == NULL || sender->active);
 
   dbus_bool_t ret = send_one_message ((DBusConnection *) proposed, (BusContext *) &ts_context_obj, (DBusConnection *) sender, (DBusConnection *) addressed,
@@ -83,7 +83,7 @@ void harness_matches (void)
   _Bool swap = nondet_bool ();
   ts_recipient[0] = swap ? &ts_conns[3] : &ts_conns[2]; ts_recipient[1] = swap ? &ts_conns[2] : &ts_conns[3]; ts_recipient[2] = &ts_conns[0];
   DBusError err; err.name = NULL; err.message = NULL;
-  __CPROVER_assume (PRE_bus_dispatch_matches (ts_transaction, sender, addressed, &M, &err));
+  __CPROVER_assume (PRE_bus_dispatch_matches (ts_transaction, sender, addressed, &M, &err) && PRE_routed_has_serial (&M));
 
   dbus_bool_t ret = bus_dispatch_matches ((BusTransaction *) ts_transaction, (DBusConnection *) sender, (DBusConnection *) addressed, (DBusMessage *) &M, &err);
 
